@@ -41,7 +41,8 @@ def plan_C15(tier, seed):
         "exhaustive": True,
         "rule": "case 0 enumerates every cell of (combinator x receiver case {Fallthrough,Res(Ok),Res(Err)} x closure "
                 "return case [x mutate]) for or_parse, or_always_parse, or_give_up, optional, matches, and_then, and_also, "
-                "and_do, map, map_err, err_into, From<Result> and ResultExt::{err_into,and_also,and_do}; each cell compares "
+                "and_do, map, map_err, err_into, From<Result> and ResultExt::{err_into,and_also,and_do}, plus the closure-taking "
+                "combinators once more with a zero-sized value type (); each cell compares "
                 "returned value (identity-tagged), closure invocation count and received argument with a table written from "
                 "the documentation. Cases k>=1 enumerate all token strings of length k-1 over {a,b,c,d,e,z} through a composed "
                 "grammar and compare result and closure-invocation trace with a direct reference. Distinct = distinct cell "
@@ -50,7 +51,7 @@ def plan_C15(tier, seed):
         "jobs": jobs,
         "primary_jobs": ["table-chk"],
         "eval_counters": ["cells", "grammar_strings"],
-        "floors": {"cells": 2 * 73, "distinct_nontrivial": 73},
+        "floors": {"cells": 2 * 92, "distinct_nontrivial": 92},
         "assumptions": ["the specification table in harness/src/c15.rs is written from the rustdoc of flussab::Parsed/ResultExt"],
     }
 
@@ -63,6 +64,8 @@ def plan_C16(tier, seed):
         Job("enum-chk", "chk", "c16", total, {"mode": "enum", "max_len": L}, crash_is_violation=True),
         Job("enum-rel", "rel", "c16", total if tier == "thorough" else sum(6 ** l for l in range(6 + 1)),
             {"mode": "enum", "max_len": L}, crash_is_violation=True),
+        Job("words-chk", "chk", "c16", 6 ** 8, {"mode": "words"}, crash_is_violation=True),
+        Job("words-rel", "rel", "c16", 6 ** 8, {"mode": "words"}, crash_is_violation=True),
         Job("sampled-chk", "chk", "c16", ns, {"mode": "sampled"}, crash_is_violation=True),
         Job("sampled-rel", "rel", "c16", ns, {"mode": "sampled"}, crash_is_violation=True),
     ]
@@ -79,11 +82,15 @@ def plan_C16(tier, seed):
                 "offset, position, and that no successful read starts once the deciding byte is buffered. "
                 "Non-trivial = the scanner passes over >= 1 byte or has to inspect beyond its start offset; distinct by hash "
                 "of (string, offset, function, pattern, pre-buffer/schedule) - at most 200000 hashes per enum worker are "
-                "stored, so the distinct count is a lower bound of the counter nontrivial_evals." % L,
+                "stored, so the distinct count is a lower bound of the counter nontrivial_evals. words: every 8-byte word over "
+                "{space, tab, '!', 0x08, LF, 'a'} (+ a short tail), fully buffered before the call so that any word-at-a-time "
+                "scanning is what runs, at start offsets 0..2. sampled strings draw half of their bytes from blanks, line ends "
+                "and every byte that differs from one of them in one bit or by +-1." % L,
         "jobs": jobs,
-        "primary_jobs": ["enum-chk", "sampled-chk"],
+        "primary_jobs": ["enum-chk", "sampled-chk", "words-chk"],
         "eval_counters": ["evals_strict", "evals_loose"],
         "floors": {"evals_strict": q(tier, 20_000_000, 1_000_000_000), "evals_loose": q(tier, 100_000, 5_000_000),
+                   "words": 2 * 6 ** 8,
                    "distinct_nontrivial": 100_000},
         "assumptions": ["reference semantics of the four helpers are taken from their rustdoc in flussab/src/text.rs"],
     }
@@ -214,7 +221,8 @@ def plan_C14(tier, seed):
         # the raw 8-byte loads of the text scanners and of the BTOR2 keyword scanner and the unchecked slicing of the
         # tokenizers are reached through the parsers: hostile parser corpus under AddressSanitizer (only a
         # sanitizer report / crash counts here; panics and values are C05's and C06's business)
-        Job("parsers-asan", "asan", "c05", q(tier, 400_000, 8_000_000), {"quiet": 1, "max_size": 600}, cpu_limit=60,
+        Job("scanners-asan", "asan", "c13", q(tier, 24_000, 600_000), {"mode": "boundary"}, crash_is_violation=True),
+        Job("parsers-asan", "asan", "c05", q(tier, 200_000, 8_000_000), {"quiet": 1, "max_size": 600}, cpu_limit=60,
             crash_is_violation=True),
         Job("reader-miri", "miri-san", "c14r", q(tier, 32, 640), {"max_ops": 90, "max_stream": 2000}, nshards=16,
             crash_is_violation=True, wall_limit=3000),
@@ -532,7 +540,8 @@ def plan_C10(tier, seed):
         "exhaustive": True,
         "rule": "the complete grid {cnf, wcnf, gcnf, btor2, aag section readers, aig section readers - with each of the nine AIGER "
                 "sections (inputs, latches, outputs, bad, constraints, justice sizes+literals, fairness, gates, symbols) in turn "
-                "being the long one} x chunk size "
+                "being the long one; BTOR2 with three line mixes: mixed, symbol+comment on every line, comment lines between "
+                "symbol-only nodes} x chunk size "
                 "{64,4096,16384,65536} x read size {1,7,chunk,random} x item profile {all small; one 1 MiB comment line early, "
                 "then small (text formats)} = 192 configurations; each streams N = %d MiB (rel build; chk build with less) "
                 "generated on the fly (never materialised, items dropped at once; 10^6..10^8 items; the AIGER headers declare "
@@ -545,6 +554,7 @@ def plan_C10(tier, seed):
         "jobs": jobs, "primary_jobs": ["stream-rel"], "eval_counters": ["streams"],
         "floors": dict({"streams": 2 * 192, "streams_100x_bound": 150, "items": q(tier, 500_000_000, 4_000_000_000),
                         "distinct_nontrivial": 150},
+                       **{"btor_profile:%d" % k: 16 for k in range(3)},
                        **{"aiger_long_section:" + k: 4 for k in ["inputs", "latches", "outputs", "bad", "constraints",
                                                                   "justice", "fairness", "gates", "symbols"]}),
         "assumptions": ["N is bounded (64 MiB quick, 512 MiB / 1 GiB thorough); the claim for larger N rests on the bound not depending on N"],
